@@ -72,6 +72,8 @@ type cliCall struct {
 	ret func(stdout, stderr string, ret map[string]interface{}) bool
 	// query: the command prints numbers, not sequences (no object is read back)
 	query bool
+	// outBag: the command prints unaligned sequences whatever the receiver is
+	outBag bool
 }
 
 var reStart = regexp.MustCompile(`number of start [^=]*=(-?\d+)`)
@@ -358,6 +360,93 @@ func (c *cliFront) plan(o *obj, st Step) (*cliCall, string) {
 			ret["f"] = fstr(x)
 			return true
 		}}, ""
+	// ---- names
+	case "Rename", "RenameRegexp", "CleanNames", "TrimNames", "TrimNamesAuto":
+		mapf := filepath.Join(c.dir, "names.map")
+		os.Remove(mapf)
+		var argv []string
+		switch st.Op {
+		case "Rename":
+			var b bytes.Buffer
+			for _, x := range alist(a, "map") {
+				m := x.(map[string]interface{})
+				f, t := i2b(toInts(m["f"])), i2b(toInts(m["t"]))
+				if bytes.ContainsAny(f, "\t\n\r") || bytes.ContainsAny(t, "\t\n\r") {
+					return nil, "names"
+				}
+				fmt.Fprintf(&b, "%s\t%s\n", f, t)
+			}
+			if b.Len() == 0 || os.WriteFile(mapf, b.Bytes(), 0o644) != nil {
+				return nil, "names"
+			}
+			return &cliCall{argv: append([]string{"rename", "-m", mapf}, un...)}, ""
+		case "RenameRegexp":
+			lit, repl := abytes(a, "lit"), abytes(a, "repl")
+			if !printable(lit) || (len(repl) > 0 && !printable(repl)) {
+				return nil, "names"
+			}
+			argv = append([]string{"rename", "--regexp=" + regexp.QuoteMeta(string(lit)), "--replace=" + string(repl), "-m", mapf}, un...)
+		case "CleanNames":
+			argv = append([]string{"rename", "--clean-names", "-m", mapf}, un...)
+		case "TrimNames":
+			argv = append([]string{"trim", "name", "-n", strconv.Itoa(ai(a, "size")), "-m", mapf}, un...)
+		case "TrimNamesAuto":
+			if ai(a, "curid") != 1 {
+				return nil, "curid" // the command always numbers from 1
+			}
+			argv = append([]string{"trim", "name", "--auto", "-m", mapf}, un...)
+		}
+		return &cliCall{argv: argv, ret: func(stdout, stderr string, ret map[string]interface{}) bool {
+			b, err := os.ReadFile(mapf)
+			if err != nil {
+				return false
+			}
+			m := map[string]string{}
+			for _, l := range strings.Split(string(b), "\n") {
+				if l == "" {
+					continue
+				}
+				f := strings.Split(l, "\t")
+				if len(f) != 2 {
+					return false
+				}
+				m[f[0]] = f[1]
+			}
+			ret["map"] = mapPairs(m)
+			if st.Op == "TrimNamesAuto" {
+				ret["curid"] = 1 + len(m)
+			}
+			return true
+		}}, ""
+	case "AppendSeqIdentifier":
+		id := abytes(a, "id")
+		if !printable(id) {
+			return nil, "names"
+		}
+		argv := append([]string{"addid", "--name=" + string(id)}, un...)
+		if ab(a, "right") {
+			argv = append(argv, "--right")
+		}
+		return &cliCall{argv: argv}, ""
+	case "TrimSequences":
+		if !needsAlign() {
+			return nil, "bag"
+		}
+		argv := []string{"trim", "seq", "--nb-char=" + strconv.Itoa(ai(a, "n"))}
+		if ab(a, "fromstart") {
+			argv = append(argv, "--from-start")
+		}
+		return &cliCall{argv: argv}, ""
+	case "Unalign":
+		if !needsAlign() {
+			return nil, "bag"
+		}
+		return &cliCall{argv: []string{"unalign"}, outBag: true}, ""
+	case "Transpose":
+		if !needsAlign() {
+			return nil, "bag"
+		}
+		return &cliCall{argv: []string{"transpose"}}, ""
 	// ---- seeded random commands: judged by the same relations as the library calls (any admissible outcome)
 	case "ShuffleSequences":
 		return &cliCall{argv: append([]string{"shuffle", "seqs", "--seed", strconv.Itoa(ai(a, "seed"))}, un...)}, ""
@@ -524,6 +613,13 @@ func (c *cliFront) plan(o *obj, st Step) (*cliCall, string) {
 			argv = append(argv, "--ref-seq="+string(ref))
 		}
 		return &cliCall{argv: argv}, ""
+	case "RefCoordinates":
+		// `subseq --ref-seq` = the window of RefCoordinates, then SubAlign on it (composed in the specification)
+		nm := abytes(a, "name")
+		if !needsAlign() || !printable(nm) {
+			return nil, "names"
+		}
+		return &cliCall{argv: []string{"subseq", "--ref-seq=" + string(nm), "--start=" + strconv.Itoa(ai(a, "start")), "--length=" + strconv.Itoa(ai(a, "len"))}}, ""
 	case "SubAlign":
 		if !needsAlign() {
 			return nil, "bag"
@@ -624,6 +720,7 @@ func (h *heapRun) cliStep(env *Env, c *cliFront, id string, i int, st Step) {
 	}
 	argv := append(append([]string{}, call.argv...), "--alphabet", alpha)
 	cmd := exec.Command(c.bin, argv...)
+	cmd.Dir = c.dir // (rename --regexp writes a file called "none" into the working directory)
 	cmd.Stdin = bytes.NewReader(in)
 	var stdout, stderr bytes.Buffer
 	cmd.Stdout, cmd.Stderr = &stdout, &stderr
@@ -656,7 +753,7 @@ func (h *heapRun) cliStep(env *Env, c *cliFront, id string, i int, st Step) {
 	} else {
 		// what the command printed, as an object of the receiver's kind and alphabet
 		var no *obj
-		if o.al != nil {
+		if o.al != nil && !call.outBag {
 			al := align.NewAlign(o.sb.Alphabet())
 			no = &obj{"align", al, al}
 		} else {
@@ -667,8 +764,13 @@ func (h *heapRun) cliStep(env *Env, c *cliFront, id string, i int, st Step) {
 		var name string
 		var seq []byte
 		have := false
+		seenNames := map[string]bool{}
 		flush := func() {
 			if have {
+				if seenNames[name] {
+					good = false // the object cannot be rebuilt with the names as printed (AddSequence renames duplicates)
+				}
+				seenNames[name] = true
 				if e := no.sb.AddSequenceChar(name, seq, ""); e != nil {
 					good = false
 				}
